@@ -26,25 +26,26 @@ type Item struct {
 
 // sctx is the state of one generated session.
 type sctx struct {
-	r          *rand.Rand
-	n          int
-	feat       string   // the one avoid-set construct this session carries ("" = none)
-	used       bool     // the feature has been placed
-	flavors    []string // names defined so far (their defining forms are in defs)
-	defs       map[string][]string
-	funs       []string
-	exports    bool   // packages may export names (def mode)
-	plain      bool   // no quoted-data or computed defaults (the item's instances are load-formed)
-	redefining bool   // the item being built replaces an earlier definition of the same name
-	final      bool   // the item being built is the last version of its name
-	override   string // the name the next item has to take (redefinition)
-	capture    bool   // remember the next generated name
-	captured   string
-	pkgs       []string // user packages defined so far
-	fl         map[string]*flInfo
-	last       string // the most derived flavor of the session's chain
-	placed     string // feature placed by a helper on the item being built
-	nflavor    int
+	r            *rand.Rand
+	n            int
+	feat         string   // the one avoid-set construct this session carries ("" = none)
+	used         bool     // the feature has been placed
+	flavors      []string // names defined so far (their defining forms are in defs)
+	defs         map[string][]string
+	funs         []string
+	exports      bool   // packages may export names (def mode)
+	needInitform bool   // the first slot of the next class has an initform
+	plain        bool   // no quoted-data or computed defaults (the item's instances are load-formed)
+	redefining   bool   // the item being built replaces an earlier definition of the same name
+	final        bool   // the item being built is the last version of its name
+	override     string // the name the next item has to take (redefinition)
+	capture      bool   // remember the next generated name
+	captured     string
+	pkgs         []string // user packages defined so far
+	fl           map[string]*flInfo
+	last         string // the most derived flavor of the session's chain
+	placed       string // feature placed by a helper on the item being built
+	nflavor      int
 }
 
 func newSctx(r *rand.Rand, feat string) *sctx {
@@ -320,6 +321,27 @@ func (s *sctx) clvarItem() Item {
 	})
 	it := Item{Kind: "clvar", Name: c.name, Forms: []string{fmt.Sprintf("(setq %s %s)", c.name, c.val)}, Probes: []string{c.name}}
 	return it
+}
+
+// interestingValue yields a value an instance variable or slot is changed
+// to: the empty ones first of all (a variable set to nil is not the same as
+// a variable left at a non-nil default).
+func interestingValue(r *rand.Rand, def string) string {
+	switch r.IntN(9) {
+	case 0, 1, 2:
+		return "nil"
+	case 3:
+		return "t"
+	case 4:
+		return "0"
+	case 5:
+		return `""`
+	case 6:
+		if def != "" {
+			return def
+		}
+	}
+	return genAtom(r)
 }
 
 // ----- flavors
@@ -612,6 +634,19 @@ func (s *sctx) flavorItem(withInstance bool, role string) Item {
 	if withInstance {
 		iv := "*" + s.name("inst-") + "*"
 		it.Forms = append(it.Forms, fmt.Sprintf("(defvar %s %s)", iv, mk))
+		// the instance lives on after its creation: variables are changed to
+		// nil, t, 0, "", back to the default, to something else
+		for _, v := range info.vars {
+			if r.IntN(2) == 0 {
+				continue
+			}
+			val := interestingValue(r, v.def)
+			if isIn(settable, v) && r.IntN(2) == 0 {
+				it.Forms = append(it.Forms, fmt.Sprintf("(send %s :set-%s %s)", iv, v.name, val))
+			} else {
+				it.Forms = append(it.Forms, fmt.Sprintf("(setf (slot-value %s '%s) %s)", iv, v.name, val))
+			}
+		}
 		it.Probes = append(it.Probes, fmt.Sprintf("(list %s)", strings.ReplaceAll(strings.Join(gets, " "), "slot-value i ", "slot-value "+iv+" ")))
 	}
 	if it.Feat != "" {
@@ -649,7 +684,7 @@ func (s *sctx) flavorInstanceItem() Item {
 		if r.IntN(3) == 0 {
 			continue
 		}
-		val := genAtom(r)
+		val := interestingValue(r, "")
 		switch r.IntN(8) {
 		case 0:
 			val = vecLit(r, 1)
@@ -710,6 +745,9 @@ func (s *sctx) classItem(parent *Item) Item {
 			sl.typ = "fixnum"
 		}
 		slots = append(slots, sl)
+	}
+	if s.needInitform && slots[0].initform == "" {
+		slots[0].initform = "49"
 	}
 	if accFeat {
 		it.Feat = "class-accessor"
@@ -840,7 +878,12 @@ func (s *sctx) classItem(parent *Item) Item {
 func (s *sctx) classInstanceItem() Item {
 	r := s.r
 	s.plain = true
+	unbound := s.want("instance-slot-unbound")
+	s.needInitform = unbound
 	base := s.classItem(nil)
+	if unbound {
+		base.Feat = "instance-slot-unbound"
+	}
 	it := Item{Kind: "class-instance", Name: base.Name, Bind: true, Feat: base.Feat, Pre: []string{base.Forms[0]}}
 	slots := strings.Fields(base.Info)
 	var b strings.Builder
@@ -849,7 +892,7 @@ func (s *sctx) classInstanceItem() Item {
 		if r.IntN(3) == 0 {
 			continue
 		}
-		val := genAtom(r)
+		val := interestingValue(r, "")
 		switch r.IntN(8) {
 		case 0:
 			val = vecLit(r, 1)
@@ -857,6 +900,11 @@ func (s *sctx) classInstanceItem() Item {
 			val = fw.Pick(r, []string{"'(1 2)", "'sym", "'(a \"b\")", "'(k9 (nested list) . 3)"})
 		}
 		_ = k
+		if k == 0 && unbound {
+			// a slot with an initform made unbound again
+			fmt.Fprintf(&b, " (slot-makunbound i '%s)", sn)
+			continue
+		}
 		fmt.Fprintf(&b, " (setf (slot-value i '%s) %s)", sn, val)
 	}
 	b.WriteString(" i)")
@@ -1086,8 +1134,9 @@ func (s *sctx) packageItem(content string) Item {
 var defKinds = []string{"package", "flavor", "flavor", "flavor-instance", "class", "class", "class-instance", "generic", "generic"}
 
 var defFeats = map[string][]string{
-	"flavor": {"flavor-default-unquoted", "flavor-parent"},
-	"class":  {"class-accessor"},
+	"flavor":         {"flavor-default-unquoted", "flavor-parent"},
+	"class":          {"class-accessor"},
+	"class-instance": {"instance-slot-unbound"},
 }
 
 func genDefCase(r *rand.Rand) Case {
@@ -1204,6 +1253,22 @@ func buildSessionCase(r *rand.Rand, feat string, n int) Case {
 			s.used = true
 			it = s.classItem(nil)
 			it.Feat = "class"
+			if r.IntN(2) == 0 {
+				// an instance in a variable whose slots were changed after creation
+				iv := "*" + s.name("obj-") + "*"
+				it.Forms = append(it.Forms, fmt.Sprintf("(defvar %s (make-instance '%s))", iv, it.Name))
+				var gets []string
+				for _, sn := range strings.Fields(it.Info) {
+					switch r.IntN(4) {
+					case 0:
+						it.Forms = append(it.Forms, fmt.Sprintf("(slot-makunbound %s '%s)", iv, sn))
+					case 1, 2:
+						it.Forms = append(it.Forms, fmt.Sprintf("(setf (slot-value %s '%s) %s)", iv, sn, interestingValue(r, "")))
+					}
+					gets = append(gets, fmt.Sprintf("(if (slot-boundp %s '%s) (slot-value %s '%s) 'unbound)", iv, sn, iv, sn))
+				}
+				it.Probes = append(it.Probes, "(list "+strings.Join(gets, " ")+")")
+			}
 		case feat == "send-error-before-snapshot":
 			s.used = true
 			s.last = ""
